@@ -105,6 +105,30 @@ def combine(outcomes, keep_raises=False):
     return intern(t)
 
 
+def assume(t, cond):
+    """Resolve phi nodes of t whose condition is fixed by the path condition."""
+    facts = {}
+    for c, pol in cond:
+        facts[c] = pol
+    memo = {}
+
+    def go(x):
+        if not isinstance(x, tuple) or not x:
+            return x
+        k = id(x)
+        if k in memo:
+            return memo[k]
+        if x[0] == 'ite' and x[1] in facts:
+            r = go(x[2] if facts[x[1]] else x[3])
+        elif isinstance(x[0], str):
+            r = intern(tuple(go(y) if isinstance(y, tuple) else y for y in x))
+        else:
+            r = tuple(go(y) if isinstance(y, tuple) else y for y in x)
+        memo[k] = r
+        return r
+    return go(intern(t))
+
+
 def strip_raises(t):
     if isinstance(t, tuple) and t and t[0] == 'ite':
         a, b = strip_raises(t[2]), strip_raises(t[3])
@@ -133,6 +157,7 @@ class Interp:
         self.inline_new = inline_new
         self._fields_cache = {}
         self.warnings = []
+        self.loops = {}     # loop id -> summary of a loop that was not unrolled
 
     # ------------------------------------------------------------------
     def fresh(self):
@@ -418,6 +443,19 @@ class Interp:
             return self.decide(t)
         return None
 
+    def decide_in(self, t, cond):
+        d = self.decide_cond(t)
+        if d is not None:
+            return d
+        for c, pol in cond:
+            if c is t or c == t:
+                return pol
+            if c[0] == 'un' and c[1] == 'not' and c[2] == t:
+                return not pol
+            if t[0] == 'un' and t[1] == 'not' and t[2] == c:
+                return not pol
+        return None
+
     @staticmethod
     def _known_kind(t):
         if t[0] in ('const', 'num'):
@@ -430,7 +468,7 @@ class Interp:
     def exec_if(self, st, env, frame, cond):
         env = dict(env)
         c = self.eval(st.test, env, frame, cond, stmt_env=env)
-        d = self.decide_cond(c)
+        d = self.decide_in(c, cond)
         if d is True:
             return self.exec_block(st.body, env, frame, cond)
         if d is False:
@@ -619,9 +657,14 @@ class Interp:
             else:
                 outs.append(o)
         out_env = dict(env)
+        summary = dict(func=frame.qual, lineno=st.lineno, vars={},
+                       cond=None if it is not None else lc[0], iter=it)
+        self.loops[lid] = summary
         if falls:
             benv2 = falls[0].env if len(falls) == 1 else \
                 self.merge_by_cond(falls, cond + (lc,))
+            for n in assigned:
+                summary['vars'][n] = (env.get(n), benv2.get(n))
             for n in assigned:
                 step = benv2.get(n, ('unk', 'unbound:' + n))
                 init = env.get(n, ('unk', 'unbound:' + n))
@@ -774,6 +817,9 @@ class Interp:
             return self.class_of(t[1])
         if t[0] == 'copy':
             return self.class_of(t[2])
+        if t[0] == 'ite':
+            a, b = self.class_of(t[2]), self.class_of(t[3])
+            return a if a == b else None
         return None
 
     def getattr_term(self, base, name, frame, cond, depth=None):
@@ -965,7 +1011,7 @@ class Interp:
 
     def e_IfExp(self, e, env, frame, cond):
         c = self.eval(e.test, env, frame, cond)
-        d = self.decide_cond(c)
+        d = self.decide_in(c, cond)
         if d is True:
             return self.eval(e.body, env, frame, cond)
         if d is False:
@@ -1237,6 +1283,18 @@ class Interp:
             if folded is not None:
                 return folded
             return ('call', name, tuple(pos), tuple(sorted(kws.items())))
+        if k == 'ite':
+            d = self.decide_in(ft[1], cond)
+            if d is True:
+                return self.apply(ft[2], pos, kws, frame, cond, node, env, wb)
+            if d is False:
+                return self.apply(ft[3], pos, kws, frame, cond, node, env, wb)
+            a = self.apply(ft[2], pos, kws, frame, cond + ((ft[1], True),), node,
+                           env, None)
+            b = self.apply(ft[3], pos, kws, frame, cond + ((ft[1], False),), node,
+                           env, None)
+            a, b = intern(a), intern(b)
+            return a if a == b else ('ite', ft[1], a, b)
         # method call on an opaque object
         if k == 'attr':
             self.record_call('.' + ft[2], [ft[1]] + list(pos), kws, frame, node, cond)
